@@ -7,6 +7,7 @@ import (
 	"owverif.local/verif/checks/c06"
 	"owverif.local/verif/checks/c10"
 	"owverif.local/verif/checks/c11"
+	"owverif.local/verif/checks/c12"
 	"owverif.local/verif/checks/c15"
 	"owverif.local/verif/checks/c16"
 	"owverif.local/verif/checks/c19"
@@ -17,6 +18,7 @@ var registry = map[string]func() *vf.Check{
 	"C06": c06.Spec,
 	"C10": c10.Spec,
 	"C11": c11.Spec,
+	"C12": c12.Spec,
 	"C15": c15.Spec,
 	"C16": c16.Spec,
 	"C19": c19.Spec,
